@@ -214,6 +214,11 @@ func (g *graphMemoizer) Objects(ctx context.Context, s *node.Node, p *predicate.
 	for o := range c {
 		select {
 		case <-ctx.Done():
+			// Let the wrapped lookup finish, otherwise it would stay blocked
+			// delivering to c for ever.
+			for range c {
+			}
+			wg.Wait()
 			return errors.New("context cancelled")
 		case objs <- o:
 			// memoize the object.
@@ -285,6 +290,11 @@ func (g *graphMemoizer) Subjects(ctx context.Context, p *predicate.Predicate, o 
 	for s := range c {
 		select {
 		case <-ctx.Done():
+			// Let the wrapped lookup finish, otherwise it would stay blocked
+			// delivering to c for ever.
+			for range c {
+			}
+			wg.Wait()
 			return errors.New("context cancelled")
 		case subs <- s:
 			// memoize the object.
@@ -346,6 +356,11 @@ func (g *graphMemoizer) PredicatesForSubject(ctx context.Context, s *node.Node, 
 	for p := range c {
 		select {
 		case <-ctx.Done():
+			// Let the wrapped lookup finish, otherwise it would stay blocked
+			// delivering to c for ever.
+			for range c {
+			}
+			wg.Wait()
 			return errors.New("context cancelled")
 		case prds <- p:
 			// memoize the object.
@@ -407,6 +422,11 @@ func (g *graphMemoizer) PredicatesForObject(ctx context.Context, o *triple.Objec
 	for p := range c {
 		select {
 		case <-ctx.Done():
+			// Let the wrapped lookup finish, otherwise it would stay blocked
+			// delivering to c for ever.
+			for range c {
+			}
+			wg.Wait()
 			return errors.New("context cancelled")
 		case prds <- p:
 			// memoize the object.
@@ -468,6 +488,11 @@ func (g *graphMemoizer) PredicatesForSubjectAndObject(ctx context.Context, s *no
 	for p := range c {
 		select {
 		case <-ctx.Done():
+			// Let the wrapped lookup finish, otherwise it would stay blocked
+			// delivering to c for ever.
+			for range c {
+			}
+			wg.Wait()
 			return errors.New("context cancelled")
 		case prds <- p:
 			// memoize the object.
@@ -529,6 +554,11 @@ func (g *graphMemoizer) TriplesForSubject(ctx context.Context, s *node.Node, lo 
 	for t := range c {
 		select {
 		case <-ctx.Done():
+			// Let the wrapped lookup finish, otherwise it would stay blocked
+			// delivering to c for ever.
+			for range c {
+			}
+			wg.Wait()
 			return errors.New("context cancelled")
 		case trpls <- t:
 			// memoize the object.
@@ -590,6 +620,11 @@ func (g *graphMemoizer) TriplesForPredicate(ctx context.Context, p *predicate.Pr
 	for t := range c {
 		select {
 		case <-ctx.Done():
+			// Let the wrapped lookup finish, otherwise it would stay blocked
+			// delivering to c for ever.
+			for range c {
+			}
+			wg.Wait()
 			return errors.New("context cancelled")
 		case trpls <- t:
 			// memoize the object.
@@ -651,6 +686,11 @@ func (g *graphMemoizer) TriplesForObject(ctx context.Context, o *triple.Object, 
 	for t := range c {
 		select {
 		case <-ctx.Done():
+			// Let the wrapped lookup finish, otherwise it would stay blocked
+			// delivering to c for ever.
+			for range c {
+			}
+			wg.Wait()
 			return errors.New("context cancelled")
 		case trpls <- t:
 			// memoize the object.
@@ -712,6 +752,11 @@ func (g *graphMemoizer) TriplesForSubjectAndPredicate(ctx context.Context, s *no
 	for t := range c {
 		select {
 		case <-ctx.Done():
+			// Let the wrapped lookup finish, otherwise it would stay blocked
+			// delivering to c for ever.
+			for range c {
+			}
+			wg.Wait()
 			return errors.New("context cancelled")
 		case trpls <- t:
 			// memoize the object.
@@ -773,6 +818,11 @@ func (g *graphMemoizer) TriplesForPredicateAndObject(ctx context.Context, p *pre
 	for t := range c {
 		select {
 		case <-ctx.Done():
+			// Let the wrapped lookup finish, otherwise it would stay blocked
+			// delivering to c for ever.
+			for range c {
+			}
+			wg.Wait()
 			return errors.New("context cancelled")
 		case trpls <- t:
 			// memoize the object.
@@ -852,6 +902,11 @@ func (g *graphMemoizer) Triples(ctx context.Context, lo *storage.LookupOptions, 
 	for t := range c {
 		select {
 		case <-ctx.Done():
+			// Let the wrapped lookup finish, otherwise it would stay blocked
+			// delivering to c for ever.
+			for range c {
+			}
+			wg.Wait()
 			return errors.New("context cancelled")
 		case trpls <- t:
 			// memoize the object.
